@@ -1,5 +1,5 @@
 """C02 — rendering is total: no internal error, no hang, at least one page."""
-from harness import docs, pm, pm_col_corr, pm_corr, pm_foot_corr, pm_oof_corr, pm_stage2, widegen, wide_trace
+from harness import c02_total, docs, pm, pm_col_corr, pm_corr, pm_foot_corr, pm_oof_corr, pm_stage2, widegen, wide_trace
 from vlib import sx
 from vlib.framework import PropCheck
 
@@ -28,7 +28,8 @@ def adversarial_doc(rng):
 class C02(PropCheck):
     id = 'C02'
     extractors = ()
-    modules = ('WpModel.Props.C02', 'WpModel.Props.C02Pm2', 'WpModel.Props.C02Oof', 'WpModel.Props.C03Foot')
+    modules = ('WpModel.Props.C02', 'WpModel.Props.C02Pm2', 'WpModel.Props.C02Oof', 'WpModel.Props.C03Foot',
+               'WpModel.Props.C02Extra', 'WpModel.Witness.C02Growth')
     trusted_base = (
         'modelled, not verified: the pagination functions of block.py / page.py (see C01); everything outside the '
         'model (inline layout, tables, flex, grid, drawing, PDF writing) is exercised only by the sampled totality runs',
@@ -104,8 +105,12 @@ class C02(PropCheck):
             out = wide_trace.render_outcome(html, limit_s=5, options=options)
             sec4.add(sx.line('total'), out, meta={'doc_id': doc_id, 'html': html, 'options': options},
                      tags=[doc_id.split('-')[1]])
+        # inline_block_baseline, thumbnail size, display x table parts, output options, cost of nesting
+        c02_total.add_sections(self, run)
 
     def classify(self, d):
+        if d['section'] in c02_total.SECTIONS:
+            return c02_total.classify(self, d)
         if d['section'] == 'totality-families':
             # a listed document is explained only by the very outcome recorded for it
             outcome, finding = self._family_known.get(d['meta']['doc_id'], (None, None))
@@ -127,9 +132,11 @@ class C02(PropCheck):
         return {**pm_stage2.finding_replays(),
                 'flex-item-resume-crash': flex_resume_crash, 'page-groups-indexerror': page_groups_crash,
                 'grid-named-span-hang': grid_named_span,
-                'columns-footnote-report-typeerror': columns_footnote_report_crash}
+                'columns-footnote-report-typeerror': columns_footnote_report_crash, **c02_total.FINDING_REPLAYS}
 
     def judge(self, d):
+        if d['section'] in c02_total.SECTIONS:
+            return c02_total.judge(self, d)
         if d['impl'].startswith('err:'):
             return f'rendering failed with {d["impl"]}'
         if d['impl'] == 'bad-output':
@@ -140,11 +147,14 @@ class C02(PropCheck):
         return None
 
     def search(self, run, failures):
-        return []
+        return c02_total.search(self, run, failures)
 
     def replay(self, data):
         inp = data.get('input', {})
         meta = inp.get('meta') or inp
+        handled, what = c02_total.replay(self, meta)
+        if handled:
+            return what
         if 'html' in meta and 'doc' not in meta:
             out = wide_trace.render_outcome(meta['html'], options=meta.get('options'))
             return None if out == 'ok' else f'rendering failed with {out}'
@@ -214,6 +224,6 @@ MANIFEST = {
     'design_ref': 'DESIGN.md §4 C02',
     'technique': 'Lean 4 totality theorems on the pagination model (root assertion unreachable for every document), '
                  'outcome-kind correspondence with the real layout and PDF writer on adversarial documents',
-    'text': 'Proved for all documents of the block/paragraph grammar: make_page never fails its root assertion; pagination terminates with at most 2*size(document) pages and at least one (C02.paginate_terminates, from the strict-progress theorem), so the explicit fuel of the model is irrelevant. Outcome kinds (pages vs exception class) are compared with the real code on random and adversarial documents, through layout and through write_pdf.',
-    'note': 'Partial: totality is a theorem only for the pagination model (no fixed heights, orphans/widows >= 1); code outside it (inline layout, tables, flex, grid, drawing, PDF writing) is covered by the sampled totality runs, which are validation, not proof. Known findings (printed, not alarms): flex item resume crash, page-groups IndexError / AttributeError, grid span to a line name that does not exist (hang or IndexError; the family documents showing it are listed with their exact outcome in corpus/C02/family_known.json).',
+    'text': 'Proved for all documents of the block/paragraph grammar: make_page never fails its root assertion; pagination terminates with at most 2*size(document) pages and at least one (C02.paginate_terminates, from the strict-progress theorem), so the explicit fuel of the model is irrelevant. Outcome kinds (pages vs exception class) are compared with the real code on random and adversarial documents, through layout and through write_pdf. Outside the pagination model: inline_block_baseline is modelled with its two indexings explicit and proved total for every box tree (C02x.inlineBlockBaseline_total), the size asked of Pillow thumbnail() under the dpi option is proved >= 1x1 (C02x.thumbSize_pos), both tied to the real functions on every small input; every display value x every sequence of table parts and every output option x degenerate image geometries are rendered and written; the cost of one construct nested 6/9/12 deep (count of function calls, deterministic, capped) is judged by a Lean growth checker proved to accept every polynomial cost up to degree 3 and to reject a cost doubling per level.',
+    'note': 'Partial: totality is a theorem only for the pagination model (no fixed heights, orphans/widows >= 1); code outside it (inline layout, tables, flex, grid, drawing, PDF writing) is covered by the sampled totality runs, which are validation, not proof. Known findings (printed, not alarms): flex item resume crash, page-groups IndexError / AttributeError, grid span to a line name that does not exist (hang or IndexError; the family documents showing it are listed with their exact outcome in corpus/C02/family_known.json), rendering cost exponential in the nesting depth of flex, grid, multi-column containers and padded inline boxes (nested-*-exponential, exact outcomes in corpus/C02/growth_known.json).',
 }
